@@ -86,6 +86,24 @@ func c02Scenarios(tier string) []*Scenario {
 			}
 		}
 	}
+	// exits brought about by the supervisor itself without any stop request: a readiness probe that fails
+	// failure_threshold times makes it terminate the command; the policy decides about the relaunch as
+	// after any other exit (the command dies from the signal: a failure)
+	for _, pol := range []string{"always", "on_failure", "no"} {
+		pc := PC{Name: "a", Restart: pol, Backoff: 1, Max: 1, Lines: []string{"readiness_probe:", "  exec:", "    command: \"probe-a\"",
+			"  period_seconds: 1", "  failure_threshold: 1"}}
+		pol := pol
+		sc := &Scenario{
+			ID:         fmt.Sprintf("c02-probe-kill-%s-max1", pol),
+			YAML:       projectYAML(nil, pc),
+			Procs:      map[string]*ProcScript{"a": {}},
+			Aux:        map[string][]string{"probe-a": {"fail"}},
+			K:          k,
+			TickBudget: 2,
+		}
+		sc.Check = func(w *World) []Violation { return c02Check(w, pol, 1, 1, "none") }
+		scs = append(scs, sc)
+	}
 	// ordered shutdown: a is stopped only after its dependent b has died; a may exit by itself meanwhile
 	for _, pol := range []string{"always", "on_failure"} {
 		for _, bo := range []int{0, 2} {
@@ -209,7 +227,8 @@ func c02Check(w *World, pol string, mx, bo int, stop string) []Violation {
 			// deviations may delay by up to k clock quanta: be that much more patient)
 			slack := time.Duration(w.sc.K+1) * quantum
 			due := stopReq < 0 || (stopReq > ei && tr[stopReq].T-e.T > minGap+slack)
-			if allowed && due && !e.Flag {
+			// (an exit caused by a signal of the supervisor counts when nobody ever asked for a stop: a probe did it)
+			if allowed && due && (!e.Flag || stopReq < 0) && !(e.Flag && w.Outcome == "cutoff") {
 				vs = append(vs, viol("C02", "relaunch-missing:"+orDash(pol), "exit #%d code %d was not followed by a relaunch (policy %q, max %d, outcome %s)", n, e.Code, pol, mx, w.Outcome))
 			}
 		}
